@@ -29,8 +29,11 @@ INT_VALS = [0, 1, -1, 7]
 FLOAT_VALS = [0.0, -0.0, 2.0, 2.5]
 STR_VALS = ["", "a", "b"]
 BOOL_VALS = [False, True]
-LITS = {"int": ["-1", "0", "1", "7", "8"], "float": ["0.0", "-0.0", "2.0", "2.5", "3", "-1e0"], "str": ["", "a", "b", "ab"],
-        "bool": ["0", "1"]}
+# literals in every spelling Python's int() / float() accept (leading zeros, sign, surrounding blanks, digit-group underscores, exponents) and
+# some they reject for that type (a float literal against an int value, hex notation, the empty string): rejected ones must fail, not match
+LITS = {"int": ["-1", "0", "1", "7", "8", "007", "+7", " 7 ", "-0", "0_7", "0x7", "7.0", "1e0", ""],
+        "float": ["0.0", "-0.0", "2.0", "2.5", "3", "-1e0", "02.50", "+2.5", " 2.5\t", "2.5e0", "25e-1", ".5", "2.", "2_0.0", "inf", "-inf", "nan", "0x2", ""],
+        "str": ["", "a", "b", "ab"], "bool": ["0", "1", "01", " 1", "true", ""]}
 
 
 def _mk_value(common, v, raw="same"):
@@ -43,8 +46,16 @@ def _kind(v):
     return "bool" if isinstance(v, bool) else type(v).__name__
 
 
+# literals handed to the constructor as Python numbers (definitions built from spreadsheets, numpy columns ...): interpreted in the type of
+# the value they are compared to, exactly like text literals
+NUM_LITS = {"int": [7, 0, -1, 7.0, 7.4, True], "float": [2.5, 2, 0, True, -0.0], "bool": [1, 0, True, False, 1.0], "str": [7, 2.5]}
+
+
 def _expect_cmp(op, selected, literal):
     try:
+        if not isinstance(literal, str):
+            base = int if isinstance(selected, (bool, int)) else float if isinstance(selected, float) else str
+            return interp.relate(op, selected, base(literal))
         return interp.relate(op, selected, interp.coerce(literal, selected))
     except interp.RefRaise:
         return "raise"
@@ -66,7 +77,7 @@ def _task_comparison(task):
                 for v in vals:
                     for raw in INT_VALS + FLOAT_VALS + STR_VALS:  # a raw value is never a plain Python bool
                         sel = v if use_cal else raw
-                        for lit in LITS[_kind(sel)]:
+                        for lit in LITS[_kind(sel)] + NUM_LITS[_kind(sel)]:
                             want = _expect_cmp(op, sel, lit)
                             if want == "raise":
                                 continue
